@@ -109,17 +109,37 @@ def linear_task(states):
             continue
         W = torch.tensor(c11.mat(st["W"]), dtype=torch.float64)
         exp = math.log(float(rat(st["absdet"])))
-        for cached in (False, True):
+        for cached in (False, True, "then-loaded-through-a-container"):
             m = c11.build(torch, p)
             if cls == "Naive":
                 with torch.no_grad():
                     m._weight.copy_(W)
-            m.eval()
-            m.use_cache(cached)
             x = torch.randn(3, n, dtype=torch.float64, generator=torch.Generator().manual_seed(n))
+            if cached == "then-loaded-through-a-container":
+                # history: other parameters, evaluation mode, cache on, inverse first; then the state's
+                # parameters arrive through an enclosing container's load_state_dict; then forward
+                from nflows.transforms.base import CompositeTransform
+
+                sd = {k: v.clone() for k, v in CompositeTransform([m]).state_dict().items()}
+                g = torch.Generator().manual_seed(n + 11)
+                with torch.no_grad():
+                    for q in m.parameters():
+                        q.add_(0.4 * torch.randn(q.shape, generator=g, dtype=q.dtype))
+                box = CompositeTransform([m])
+                box.eval()
+                m.use_cache(True)
+                with torch.no_grad():
+                    try:
+                        m.inverse(x)
+                    except Exception:  # the scrambled parameters may be singular for tiny lattices
+                        pass
+                box.load_state_dict(sd)
+            else:
+                m.eval()
+                m.use_cache(cached)
             out["n"] += 1
             with torch.no_grad():
-                if cached:
+                if cached is True:
                     m.inverse(x)  # an inverse-first history fills the shared log-det slot
                 y, lad = m(x)
             J = torch.autograd.functional.jacobian(lambda z: m(z[None])[0][0], x[0])
